@@ -198,12 +198,20 @@ fn make_bar(world: &mut World, op: &Value) -> ProgressBar {
     let hz = op.get("hz").and_then(|x| x.as_u64()).unwrap_or(0);
     let tgt = if op["op"] == "new" { world.target(&t, hz) } else { ProgressDrawTarget::hidden() };
     let mut pb = ProgressBar::with_draw_target(len, tgt);
+    let mfirst = op.get("mfirst").and_then(|x| x.as_bool()).unwrap_or(false);
+    if mfirst {
+        // the texts before the tab width and the style: every builder order must expand consistently (C16)
+        if let Some(m) = op.get("m0") { if m.as_array().map(|a| !a.is_empty()).unwrap_or(false) { pb = pb.with_message(tok::cells_to_string(m)); } }
+        if let Some(m) = op.get("p0") { if m.as_array().map(|a| !a.is_empty()).unwrap_or(false) { pb = pb.with_prefix(tok::cells_to_string(m)); } }
+    }
     if let Some(tw) = op.get("tabw").and_then(|x| x.as_u64()) { if op.get("tabw_first").and_then(|x| x.as_bool()).unwrap_or(false) { pb = pb.with_tab_width(tw as usize); } }
     if let Some(name) = op.get("tpl").and_then(|x| x.as_str()) { pb = pb.with_style(style(name)); }
     if let Some(tw) = op.get("tabw").and_then(|x| x.as_u64()) { if !op.get("tabw_first").and_then(|x| x.as_bool()).unwrap_or(false) { pb = pb.with_tab_width(tw as usize); } }
     if let Some(f) = op.get("fin").and_then(|x| x.as_str()) { pb = pb.with_finish(finish_of(f, op.get("fm").unwrap_or(&Value::Null))); }
-    if let Some(m) = op.get("m0") { if m.as_array().map(|a| !a.is_empty()).unwrap_or(false) { pb = pb.with_message(tok::cells_to_string(m)); } }
-    if let Some(m) = op.get("p0") { if m.as_array().map(|a| !a.is_empty()).unwrap_or(false) { pb = pb.with_prefix(tok::cells_to_string(m)); } }
+    if !mfirst {
+        if let Some(m) = op.get("m0") { if m.as_array().map(|a| !a.is_empty()).unwrap_or(false) { pb = pb.with_message(tok::cells_to_string(m)); } }
+        if let Some(m) = op.get("p0") { if m.as_array().map(|a| !a.is_empty()).unwrap_or(false) { pb = pb.with_prefix(tok::cells_to_string(m)); } }
+    }
     if let Some(p) = op.get("pos0") { pb = pb.with_position(u64_of(p)); }
     pb
 }
